@@ -226,10 +226,13 @@ pub fn for_each_case<F: Fn(&Case) + Sync>(rep: &Report, thorough: bool, f: F) {
             let mut samples: Vec<Sample> = vec![("ref#0".to_string(), vec![("c".to_string(), rm.contig.clone())])];
             let mid = rm.interior_mid(1.min(rm.segs.len() - 1));
             let mut prev: Vec<u8> = rm.contig.clone();
+            let mut prev2: Vec<u8> = rm.contig.clone();
             for i in 1..n {
                 let mut c = rm.contig.clone();
                 if i % 7 == 3 {
                     c = prev.clone(); // duplicate of the previous sample: delta-id reuse inside a pack
+                } else if i % 11 == 6 {
+                    c = prev2.clone(); // duplicate of the sample before the previous one: ids go back, then a new id follows
                 } else if i % 13 == 5 {
                     // identical to the reference: empty delta (id 0)
                 } else {
@@ -239,6 +242,7 @@ pub fn for_each_case<F: Fn(&Case) + Sync>(rep: &Report, thorough: bool, f: F) {
                     c[p1] = (c[p1] + 1 + (i as u8 % 3)) & 3;
                     if p2 < c.len() { c[p2] = (c[p2] + 1) & 3; }
                 }
+                prev2 = prev.clone();
                 prev = c.clone();
                 samples.push((format!("s{i:03}#0"), vec![("c".to_string(), c)]));
             }
